@@ -638,7 +638,8 @@ fn explore(rep: &mut Report, tier: Tier, c08: bool, c09: bool, prop: &str) {
         (Tier::Quick, false) => (vec![0, 1, 4, 159], 10, 2, 3, 2),
         (Tier::Thorough, false) => (vec![0, 1, 2, 3, 4, 158, 159], 10, 2, 4, 3),
         (Tier::Quick, true) => (vec![0, 1, 4, 159], 10, 1, 2, 1),
-        (Tier::Thorough, true) => (vec![0, 1, 2, 3, 4, 158, 159], 10, 2, 3, 2),
+        // depth 3 with the per-state oracle over all targets costs ~100x depth 2: same alphabet as quick, one level deeper
+        (Tier::Thorough, true) => (vec![0, 1, 4, 159], 10, 1, 3, 2),
     };
     let steps = [1_000u64, 899_000, 901_000];
     let evs = alphabet(&classes, members, reqm, &steps);
